@@ -66,7 +66,7 @@ def scan(want):
         functions={f: dict(
             entry='long V_sw = starting_bit / 64; mp_limb_t V_mask = - (mp_limb_t) 1 << (starting_bit % 64);',
             loops={0: dict(scalars=['alimb'], havoc_targets=['p'],
-                           havoc='{ long V_d = nondet_long (); __CPROVER_assume (V_sw <= V_d && V_d <= g_hd); p = up + V_d + 1; }',
+                           havoc='{ long V_d = nondet_long (); __CPROVER_assume (V_sw <= V_d && V_d <= g_hd); p = up + V_d + 1; }', havoc_inv={'V_d': '(p - up - 1)'},
                            inv=inv, dec='g_hd - (p - up - 1)')})},
         harness='''void h_mpn_scan%d (void) {
   mp_size_t n = nondet_long (); __CPROVER_assume (1 <= n && n <= V_NMAX);
